@@ -11,7 +11,7 @@ cp "$HERE/known_findings.json" "$T/" 2>/dev/null
 rc=0
 total=0
 for seed in 20260924 7; do
-  for p in C01 C02 C03 C04 C05 C06 C07 C08 C09 C10 C11 C12 C13 C14 C15 C16 C17 C19; do
+  for p in C01 C02 C03 C04 C05 C06 C07 C08 C09 C10 C11 C12 C13 C14 C15 C16 C17 C19 C20; do
     n=$N; [ "$p" = "C08" ] && n=$((N/4))
     VERIF_DIR=$T VERIF_SEED=$seed "$BIN" check --property $p --runs $n --threads 16 --digests $T/a >/dev/null
     VERIF_DIR=$T VERIF_SEED=$seed "$BIN" check --property $p --runs $n --threads 16 --digests $T/b >/dev/null
